@@ -21,6 +21,7 @@ open Pcore.Lat
 #print axioms C03_widen_collection
 #print axioms C03_widen_array
 #print axioms C03_widen_hash
+#print axioms C03_trans_partial
 #print axioms C03_trans_fails_sfh
 #print axioms C03_trans_fails_iterable
 #print axioms C03_trans_false
